@@ -20,7 +20,10 @@ concrete_arrays()
 
 STORAGES = ["ram", "file-mmap", "file-nommap"]
 FRONTENDS = ["segment", "segment-loose", "buffered-1", "buffered-2", "buffered-4", "async-free", "async-contended",
-             "mp-2procs", "mp-2procs-batch1", "mp-3procs-multisegment", "buffered-1-deletelast", "buffered-2-deletelast", "buffered-3-deletelast"]
+             "mp-2procs", "mp-2procs-batch1", "mp-3procs-multisegment", "buffered-1-deletelast", "buffered-2-deletelast", "buffered-3-deletelast",
+             # a temporary document is added and deleted again while it is still in the buffer, with further documents buffered behind it
+             "buffered-9-tmpdoc", "buffered-3-tmpdoc"]
+TMPDOC = dict(k=u"tmp", t=u"tango alfa", g=u"red", n=99, kind=u"doc", cc=99)
 NFE = len(FRONTENDS)
 
 
@@ -52,6 +55,8 @@ def run_config(skind, fe, cutmask, to_ram):
             # the (independent) deletions are issued last: depending on the limit the buffer is empty when they arrive,
             # so close() has deletions but no buffered documents to commit
             rest = [op for op in rest if op[0] != "delete"] + [op for op in rest if op[0] == "delete"]
+        if name.endswith("tmpdoc"):
+            rest = [("add", TMPDOC)] + rest[:1] + [("delete", u"tmp")] + rest[1:]
         if name.startswith("buffered"):
             limit = int(name.split("-")[1])
             bw = writing.BufferedWriter(ix, period=None, limit=limit)
